@@ -148,14 +148,16 @@ func (ex *Exec) dispatch(fr *Frame, st *State, cc *ssa.CallCommon, fnv Value, ar
 // rheld, pile) are exempt: a callee without an explicit lock-effect contract
 // is balanced by the default contract, which the sweep checks for the callee.
 func (ex *Exec) havocInferred(st *State, ws KeySet) {
+	var keys []string
 	for _, k := range ws.Sorted() {
 		if strings.HasPrefix(k, "G:") {
 			if g, ok := ex.prog.Contracts.GhostMaps[k[2:]]; ok && g.Stable {
 				continue
 			}
 		}
-		ex.havocKey(st, k)
+		keys = append(keys, k)
 	}
+	ex.havocSet(st, keys)
 }
 
 func (ex *Exec) isTargetFn(fn *ssa.Function) bool {
@@ -398,16 +400,9 @@ func (ex *Exec) applyContract(fr *Frame, st *State, fc *FuncContract, fn *ssa.Fu
 			}
 		}
 	}
-	for _, k := range fc.Havoc {
-		if strings.HasSuffix(k, "*") {
-			// prefix pattern over all heap keys known for the loaded packages
-			for _, full := range ex.prog.Pre.KeysWithPrefix(strings.TrimSuffix(k, "*")) {
-				ex.havocKey(st, full)
-			}
-			continue
-		}
-		ex.havocKey(st, k)
-	}
+	// (a key ending in * is a prefix pattern over all heap keys known for the
+	// loaded packages; E:<sort>@<type> only reaches arrays of that element type)
+	ex.havocSet(st, fc.Havoc)
 	st.Time++
 	// results
 	var res Value
@@ -1187,14 +1182,7 @@ func (ex *Exec) enterLoop(fr *Frame, li *loopInfo, st *State) {
 			}
 		}
 	}
-	for k := range ws {
-		if strings.HasPrefix(k, "G:") {
-			if g, ok := ex.prog.Contracts.GhostMaps[k[2:]]; ok && g.Stable {
-				continue
-			}
-		}
-		ex.havocKey(st, k)
-	}
+	ex.havocInferred(st, ws)
 	for c := range cells {
 		if _, ok := st.Cells[c]; !ok {
 			continue
@@ -1211,6 +1199,10 @@ func (ex *Exec) enterLoop(fr *Frame, li *loopInfo, st *State) {
 		} else {
 			st.Cells[c] = Unknown{"havocked pointer cell " + c.Name}
 		}
+	}
+	if spec != nil && spec.LockVariant {
+		ex.havocKey(st, "G:held")
+		ex.havocKey(st, "G:rheld")
 	}
 	st.Time++
 	ls := &loopState{held: ex.heapGet(st, "G:held", SArray(SInt, SInt)), rheld: ex.heapGet(st, "G:rheld", SArray(SInt, SInt)), nDefers: len(st.Defers)}
@@ -1379,6 +1371,11 @@ func (ex *Exec) backEdge(fr *Frame, li *loopInfo, st *State) {
 	// the set of locks held must be the same at every iteration
 	held := ex.heapGet(st, "G:held", SArray(SInt, SInt))
 	rheld := ex.heapGet(st, "G:rheld", SArray(SInt, SInt))
+	if spec := ex.loopSpec(fr, li); spec != nil && spec.LockVariant {
+		// ... unless the loop is declared to acquire/release locks: its
+		// invariants describe the ledgers
+		ls.held, ls.rheld = held, rheld
+	}
 	var conds []*Term
 	for _, l := range ex.lockTerms {
 		conds = append(conds, ts.Eq(ts.Select(held, l), ts.Select(ls.held, l)))
